@@ -1,4 +1,5 @@
 import ChessVerif.Props.C04
+import ChessVerif.Props.C04nc
 #print axioms ChessVerif.Props.C04.inv_iff
 #print axioms ChessVerif.Props.C04.inv_hash
 #print axioms ChessVerif.Props.C04.inv_resetHash
@@ -9,3 +10,8 @@ import ChessVerif.Props.C04
 #print axioms ChessVerif.Props.C04.calcHash_congr
 #print axioms ChessVerif.Props.C04.transposition_hash
 #print axioms ChessVerif.Props.C04.transposition_lines
+#print axioms ChessVerif.Props.C04nc.inv_make_nc
+#print axioms ChessVerif.Props.C04nc.inv_reachable_nc
+#print axioms ChessVerif.Props.C04nc.hash_reachable_nc
+#print axioms ChessVerif.Props.C04nc.inv_line_nc
+#print axioms ChessVerif.Props.C04nc.transposition_reachable_nc
